@@ -9,6 +9,7 @@ import TamocV.Real
 import TamocV.Lemmas.Basic
 import TamocV.Model.Smp
 import Mathlib.Tactic.Ring
+import Mathlib.Tactic.FieldSimp
 
 namespace TamocV.Lemmas.C06
 open TamocV.Model.Smp
@@ -221,54 +222,53 @@ theorem heatFold_eq (ps : List (Particle ℝ)) (h : ℝ) :
       · simp
     rw [this]; ring
 
-/-! the slot readers only look at the particle block -/
+/-! ### definitional facts about `OuterPlume.update` and the momentum slot
 
-theorem sumMassSlots_congr (j : Nat) (hj : j < n) (ps : List (Particle ℝ)) (idx : Nat) (v v' : List ℝ)
-    (h : ∀ k, idx ≤ k → k < idx + (ps.map (width n)).sum → v'.getD k 0 = v.getD k 0) :
-    sumMassSlots n j ps idx v' = sumMassSlots n j ps idx v := by
-  induction ps generalizing idx with
-  | nil => simp [sumMassSlots]
-  | cons pt ps ih =>
-    unfold sumMassSlots
-    simp only [Num.real_zero]
-    simp only [List.map_cons, List.sum_cons] at h
-    rw [ih (idx + width n pt) (fun k h1 h2 => h k (by omega) (by omega))]
-    by_cases hs : pt.issoluble = true
-    · have hw : width n pt = n + 5 := by simp [width, nMass, hs]
-      rw [h (idx + j) (by omega) (by omega)]
-    · simp [hs]
+  These restate branches of the model definitions (no property content); the property theorems in
+  Props/C06.lean compose them with the exchange identities. -/
 
-theorem sumHeatSlots_congr (ps : List (Particle ℝ)) (idx : Nat) (v v' : List ℝ)
-    (h : ∀ k, idx ≤ k → k < idx + (ps.map (width n)).sum → v'.getD k 0 = v.getD k 0) :
-    sumHeatSlots n ps idx v' = sumHeatSlots n ps idx v := by
-  induction ps generalizing idx with
-  | nil => simp [sumHeatSlots]
-  | cons pt ps ih =>
-    unfold sumHeatSlots
-    simp only [Num.real_zero]
-    simp only [List.map_cons, List.sum_cons] at h
-    rw [ih (idx + width n pt) (fun k h1 h2 => h k (by omega) (by omega))]
-    have hw : width n pt = nMass n pt + 5 := rfl
-    rw [h (idx + nMass n pt) (by omega) (by omega)]
+/-- branch selection: `Q ≥ 0` gives the ambient record (l.1528-1535) -/
+theorem outerUpdate_absent (y : List ℝ) (Ta Sa rho_a : ℝ) (ca : List ℝ) (dens : ℝ → ℝ → ℝ) (bi : ℝ)
+    (h : ¬ y.getD 0 0 < 0) :
+    outerUpdate p y Ta Sa rho_a ca dens bi = outerAbsent Ta Sa rho_a ca := by
+  simp only [outerUpdate, Num.real_zero]
+  rw [if_neg h]
 
-theorem sumHos_congr (ps : List (Particle ℝ)) (idx : Nat) (v v' : List ℝ)
-    (h : ∀ k, idx ≤ k → k < idx + (ps.map (width n)).sum → v'.getD k 0 = v.getD k 0) :
-    sumHos p n ps idx v' = sumHos p n ps idx v := by
-  induction ps generalizing idx with
-  | nil => simp [sumHos]
-  | cons pt ps ih =>
-    unfold sumHos
-    simp only [Num.real_zero]
-    simp only [List.map_cons, List.sum_cons] at h
-    rw [ih (idx + width n pt) (fun k h1 h2 => h k (by omega) (by omega))]
-    by_cases hs : pt.issoluble = true
-    · have hw : width n pt = n + 5 := by simp [width, nMass, hs]
-      simp only [hs, if_true]
-      congr 2
-      apply List.map_congr_left
-      intro j hjm
-      have hj : j < n := List.mem_range.mp hjm
-      rw [h (idx + j) (by omega) (by omega)]
-    · simp [hs]
+/-- the all-zero state `derivs_inner` substitutes above the top of the outer plume (l.89) has `Q ≥ 0` -/
+theorem outerUpdate_zeros (k : Nat) (Ta Sa rho_a : ℝ) (ca : List ℝ) (dens : ℝ → ℝ → ℝ) (bi : ℝ) :
+    outerUpdate p (List.replicate k 0) Ta Sa rho_a ca dens bi = outerAbsent Ta Sa rho_a ca := by
+  apply outerUpdate_absent
+  cases k <;> simp [List.replicate]
+
+/-- branch selection: `Q < 0` gives the derived quantities of l.1522-1527 -/
+theorem outerUpdate_present (y : List ℝ) (Ta Sa rho_a : ℝ) (ca : List ℝ) (dens : ℝ → ℝ → ℝ) (bi : ℝ)
+    (h : y.getD 0 0 < 0) :
+    (outerUpdate p y Ta Sa rho_a ca dens bi).u = y.getD 1 0 / y.getD 0 0 ∧
+    (outerUpdate p y Ta Sa rho_a ca dens bi).b
+      = Real.sqrt (y.getD 0 0 ^ 2 / (pi * y.getD 1 0) + bi ^ 2) ∧
+    (outerUpdate p y Ta Sa rho_a ca dens bi).s = y.getD 2 0 / y.getD 0 0 ∧
+    (outerUpdate p y Ta Sa rho_a ca dens bi).T = y.getD 3 0 / (p.rho_r * p.cp * y.getD 0 0) ∧
+    (outerUpdate p y Ta Sa rho_a ca dens bi).Sa = Sa ∧
+    (outerUpdate p y Ta Sa rho_a ca dens bi).Ta = Ta ∧
+    (outerUpdate p y Ta Sa rho_a ca dens bi).ca = ca := by
+  simp only [outerUpdate, Num.real_zero]
+  rw [if_pos h]
+  simp
+
+theorem ambEntr_absent (Ta Sa rho_a : ℝ) (ca : List ℝ) : ambEntr p (outerAbsent Ta Sa rho_a ca) = 0 := by
+  simp [ambEntr, outerAbsent]
+
+/-- outside the property (it makes no claim about momentum): weighted by the momentum amplification
+    factors the exchanged momentum cancels and only the two buoyancy terms remain -/
+theorem momentum_exchange (ps : List (Particle ℝ)) (hi : p.gamma_i ≠ 0) (ho : p.gamma_o ≠ 0) :
+    p.gamma_i * (derivsInner p n yi yo ps).getD 1 0 + p.gamma_o * (derivsOuter p n yi yo).getD 1 0
+    = -(pi * p.g * yi.b ^ 2 / p.rho_r
+          * (yi.Fb + p.lambda_2 ^ 2 * (1 - yi.Xi) * (yi.rho_a - yi.rho)))
+      - pi * p.g * (yo.b ^ 2 - yi.b ^ 2) / p.rho_r * (yo.rho_a - yo.rho) := by
+  rw [derivsInner_eq]
+  simp only [derivsOuter, List.cons_append, List.getD_cons_zero, List.getD_cons_succ, innerMom,
+    outerMom, Num.real_npow, Num.real_one]
+  field_simp
+  ring
 
 end TamocV.Lemmas.C06
